@@ -10,7 +10,9 @@ PROP = {
              "x no / own / foreign state-init: the hash and bits of the external message and the bits of the body are compared with the "
              "extracted model (signature and highload random given as oracle columns); CreateMessageBody with Sendables and every V5 message "
              "type, where the model computes the carried cells itself from the Sendable fields (amount 0..2^64-1, workchain, address, "
-             "bounce, mode, body, code+data, text comment of 0..1000 bytes as snake data) through the tlb.Message descriptor; VerifySignature / MessageV5VerifySignature with own key, another key, a 31-byte key, other versions, sampled single-bit "
+             "bounce, mode, body, code+data, text comment of 0..1000 bytes as snake data; wallet.ContractDeploy into workchains 0, -1, 1, 5, 127, "
+             "-128 with code / data / body given as *boc.Cell, BOC bytes, hex or base64 string, and without data = refused) through the "
+             "tlb.Message descriptor, the destination of a deployment being (workchain, hash of its StateInit); VerifySignature / MessageV5VerifySignature with own key, another key, a 31-byte key, other versions, sampled single-bit "
              "flips, truncated / reference-dropped / random bodies (the Ed25519 verdict over the independently cut signed part is an oracle "
              "table; the checked hash is part of the compared result); Decode*/ExtractRawMessages of own, cross-version and malformed bodies; "
              "v5r1 CreateSignedMsgBodyCell with 0..4 extended actions (add / remove extension with addr_std (anycast or not), addr_none, "
@@ -26,7 +28,9 @@ PROP = {
              "Oracles on the implementation: returned hash = hash of the payload, signature valid over the hash of the signed part cut by "
              "position, accepted under the own key, rejected as ErrBadSignature under another key, EVERY single-bit flip of the signed bits "
              "+ 16 signature bits + every referenced cell rejected, ExtractRawMessages = the requested (cell, mode) list in order, decoded "
-             "expiry/seqno = requested, destination = wallet address, more than the limit refused with nothing sent. "
+             "expiry/seqno = requested, destination = wallet address, more than the limit refused with nothing sent; every Sendable's carried "
+             "internal message read back with the library's decoder has the requested destination (for ContractDeploy: workchain + "
+             "independently computed StateInit hash), amount, bounce, mode and code/data (key c14-transfer-fields). "
              "A class is (kind, family, version, size bucket, init / message type / mutation, outcome)."),
     'explanation': ("coq/Properties/C14.v, for the Gallina model of createSignedMsgBodyCell of all seven versions, signBodyCell, the payload "
                     "codecs, CreateExternalMessage, VerifySignature, MessageV5VerifySignature, the decoders and ExtractRawMessages, for ANY "
@@ -42,7 +46,9 @@ PROP = {
                     "C14_any_envelope_roundtrip: a built body under ANY such envelope decodes to the requested fields and verifies; "
                     "C14_transfer_roundtrip / C14_transfers_carried: each carried cell is the tlb.Message encoding (C03 descriptor codec) of "
                     "the requested (amount, destination, bounce, body, init, mode) and decoding the cells extracted from the sent message "
-                    "yields exactly the requested transfer list; C14_create_message_body_expiry: CreateMessageBody signs the explicit expiry or "
+                    "yields exactly the requested transfer list; C14_deploy_carried: a ContractDeploy into workchain W is carried as a message to "
+                    "(W, hash of the StateInit of code and data) with that StateInit attached (the workchain-dropping design is refuted in "
+                    "Proofs/WalletHistory.v); C14_create_message_body_expiry: CreateMessageBody signs the explicit expiry or "
                     "now + the lifetime the wallet was configured with (clock a parameter), the value SendV2 takes too "
                     "(C15_api_send_v2_expiry); the constant-lifetime design is refuted in Proofs/WalletHistory.v. "
                     "coq/Properties/C14_gen.v re-checks limits, opcodes and the action magic "
